@@ -10,10 +10,10 @@ import (
 )
 
 func init() {
-	register(&Rule{ID: "C04.R4", Min: 20,
+	register(&Rule{ID: "C04.R4", Min: 16,
 		Text: "every loop reachable from the exported API is bounded: a counted/range loop; a tabled loop with a named variant; or, when its body is driven by ErrDecimal wrappers (no-ops after the first error), every cycle passes a loop.done or ed.Err() test whose error edge leaves the loop; loop.done itself counts iterations against maxIterations; Exp's series length is capped",
 		Run:  ruleLoopsBounded})
-	register(&Rule{ID: "C04.R5", Min: 4,
+	register(&Rule{ID: "C04.R5", Min: 2,
 		Text: "the parser cannot produce an ill-formed value: the digit string handed to BigInt.SetString (which accepts a sign) is the very value a dominating sign rejection was applied to; Form stays NaN on every error return; the success path returns through setExponent",
 		Run:  ruleParserWellFormed})
 }
